@@ -255,6 +255,37 @@ PROPS = {
         trusted_base=["representation-invariant induction (constructor + preservation + field privacy)"],
         not_decided=["round trip through the hashing importer"],
     ),
+    "C15": dict(
+        level="proof",
+        technique="Verus contract on the assembly of the printed record in the binary's main() (statement-table slice of the real function; library calls as uninterpreted functions) and on the serialisation filter",
+        level_text="Deductive proof on the real text of main(): the printed utilities are each player's OWN payoff of the printed profile "
+                   "(zero-sum utility plus half the constant the file's payoffs add up to, for both players), the printed regrets and the "
+                   "total are those of the printed profile, the two strategies are the named views of that profile in player order, and "
+                   "an action is serialised exactly when its probability is positive. Partial: see note.",
+        level_note="Process-level behaviour (exit status, that exactly one JSON object is written, parsing of the input file, how the constant "
+                   "is derived by the Gambit reader) is NOT decided: clap / serde / gambit-parser code is abstracted. Game::solve is assumed to succeed.",
+        verus=[U("c16_main_slice", ["C15.V.main.own_payoffs", "C15.V.output.zero_probability_actions_omitted", "C16.V.main.prints_what_the_options_select"]),
+               U("lib_plumbing", ["C13.V.as_named.pairs_tables", "C01.V.get_info.pairs_tables"]),
+               U("c13_action_iter_predicates", ["C13.V.action_iter.next_lists_positive"])],
+        kani_functions=[],
+        trusted_base=["uninterpreted float semantics", "the library calls of main() as uninterpreted functions of all their arguments (their own contracts: C01, C05, C13, C18)"],
+        not_decided=["process-level behaviour: exit status, one JSON object, input parsing", "the constant-sum analysis of the Gambit reader", "independent re-evaluation of the printed strategies on the file's game"],
+    ),
+    "C16": dict(
+        level="proof",
+        technique="Verus contract on the option plumbing of the binary's main() (statement-table slice of the real function) and on Discount::into_params",
+        level_text="Deductive proof on the real text of main(): the method, discount preset, iteration budget (0 = unlimited), regret threshold and "
+                   "parallelism options reach Game::solve unchanged and in the right argument positions; each preset name maps to its library "
+                   "preset; the profile truncated at the clip threshold is printed exactly when its regret is strictly lower than the "
+                   "unpruned one, otherwise the solver's profile; what is printed (regrets, strategies) belongs to that profile. Partial: see note.",
+        level_note="Input route and format detection (file / stdin, explicit / auto), output destination, and 'a JSON and a Gambit encoding of "
+                   "the same game give the same solution' are NOT decided (reader code abstracted); validity of the printed profile is C05 / C18.",
+        verus=[U("c16_main_slice", ["C16.V.main.prints_what_the_options_select", "C16.V.discount.into_params"]),
+               U("c18_truncate_whole", ["C18.V.truncate.whole"]), U("c18_truncate_sums_to_one", ["C18.V.truncate.sums_to_one (what is printed after clipping is a valid profile)"])],
+        kani_functions=[],
+        trusted_base=["uninterpreted float semantics", "the library calls of main() as uninterpreted functions of all their arguments"],
+        not_decided=["input route / format detection / output destination", "equivalence of the JSON and Gambit encodings", "thread-count independence of the printed result (C06)"],
+    ),
     "C18": dict(
         level="proof",
         technique="Verus contract on the per-infoset body of truncate (extracted each run) + Kani harnesses on the real truncate (bounded, bit-precise)",
@@ -320,7 +351,5 @@ NOT_APPLICABLE = {
     "C03": "analytic convergence-rate theorem over unbounded float histories; no per-call contract expresses it",
     "C04": "probabilistic convergence; neither Verus nor Kani has a probability semantics",
     "C12": "relational property over two constructions and two whole solves; needs whole-tree construction (C11 is decided per node only) plus whole-solver functional correctness",
-    "C15": "process-level output of the binary; logic inline in main() behind clap/serde/gambit-parser",
-    "C16": "option plumbing inline in main(); process-level behaviour",
     "C17": "exit status / stderr of a process; not a property of one call",
 }
